@@ -176,4 +176,15 @@ def entries (ignore : List String) (mols : List Mol) : List (Nat × Node) := ent
 /-- the key of `nodes_to_gndx` for an entry -/
 def keyOf (e : Nat × Node) : Nat × Nat := (e.1, e.2.key)
 
+/-! ### the bulk position query -/
+
+/-- `update_positions_in_molecules(molecules)`: every node of every molecule that the engine knows
+(`(mol_idx, node) in nodes_to_gndx`, here `gndxOf`) gets `positions[gndx]` — a row of `inf` (`none`) if the residue
+has no position — whatever it carried before (`old`); nodes the engine does not know keep what they carried. -/
+def handBack (s : State) (gndxOf : Nat × Nat → Option Nat) (old : Nat × Nat → Option V3) : Nat × Nat → Option V3 :=
+  fun k =>
+    match gndxOf k with
+    | none => old k
+    | some g => s.pos g
+
 end PolyplyVerif.EngineLayout
